@@ -13,15 +13,26 @@ UNIT = 16384            # model unit in bytes: Chunk = 2 units = SFTPFile.MAX_RE
 TRACE_CONSTS = {"FileSize": 0, "Chunk": 32768, "MaxOps": 0, "Ops": set(), "ReadSizes": set(), "SeekPos": set(),
                 "VOffs": set(), "VLens": set(), "MaxV": 0, "Limits": set(), "MaxThreads": 0, "WriteFaults": False,
                 "ShortReads": False, "PipeLimit": 100, "FixClose": False, "FixOwner": True, "FixExtent": True,
-                "FixEofSave": True, "FixEmptyStart": True}
+                "FixEofSave": True, "FixEmptyStart": True, "BufSize": 0, "Whences": {0}, "SeekFromRealpos": False,
+                "ReqCap": 0, "ReqThresh": 1, "RespCap": 0, "RespThresh": 1, "SendUnderLock": False}
 READ_MODEL = {"FileSize": 3, "Chunk": 2, "MaxOps": 2, "Ops": {"prefetch", "read", "seek", "readv"}, "ReadSizes": {2},
               "SeekPos": {1}, "VOffs": {0, 2, 3}, "VLens": {2}, "MaxV": 2, "Limits": {0, 1}, "MaxThreads": 2,
               "WriteFaults": False, "ShortReads": True, "PipeLimit": 2, "FixClose": False, "FixOwner": False,
-              "FixExtent": True, "FixEofSave": True, "FixEmptyStart": True}
+              "FixExtent": True, "FixEofSave": True, "FixEmptyStart": True, "BufSize": 0, "Whences": {0}, "SeekFromRealpos": False,
+              "ReqCap": 0, "ReqThresh": 1, "RespCap": 0, "RespThresh": 1, "SendUnderLock": False}
 WRITE_MODEL = {"FileSize": 3, "Chunk": 2, "MaxOps": 4, "Ops": {"write", "stat", "read", "close"}, "ReadSizes": {2},
                "SeekPos": {0}, "VOffs": {0}, "VLens": {1}, "MaxV": 1, "Limits": {0}, "MaxThreads": 1,
                "WriteFaults": True, "ShortReads": False, "PipeLimit": 2, "FixClose": False, "FixOwner": True,
-               "FixExtent": True, "FixEofSave": True, "FixEmptyStart": True}
+               "FixExtent": True, "FixEofSave": True, "FixEmptyStart": True, "BufSize": 0, "Whences": {0}, "SeekFromRealpos": False,
+               "ReqCap": 0, "ReqThresh": 1, "RespCap": 0, "RespThresh": 1, "SendUnderLock": False}
+# seeks of all three kinds after short reads on a file with a read buffer (read-ahead), with and without prefetch
+SEEK_MODEL = dict(READ_MODEL, FileSize=6, Chunk=3, MaxOps=4, Ops={"prefetch", "read", "seek"}, ReadSizes={1, 2},
+                  SeekPos={0, 1, 2}, VOffs={0}, VLens={1}, MaxV=1, Limits={0}, MaxThreads=1, ShortReads=False,
+                  BufSize=2, Whences={0, 1, 2})
+# back-pressure: credit for 3 requests handed back in lumps of 3, room for one unread response; 6 prefetch requests
+PRESSURE_MODEL = dict(READ_MODEL, FileSize=6, Chunk=1, MaxOps=3, Ops={"prefetch", "read"}, ReadSizes={2, 6}, SeekPos={0},
+                      VOffs={0}, VLens={1}, MaxV=1, Limits={0}, MaxThreads=1, ShortReads=False,
+                      ReqCap=3, ReqThresh=3, RespCap=1, RespThresh=1)
 
 
 def tla_set(xs):
@@ -45,14 +56,15 @@ def run_programs(c, programs, label, own):
     quick = c.quick
     for i, p in enumerate(programs):
         r = drv.ProgramRunner(c.work / ("%s%d" % (label, i)), p["size"], p["seed"], short=p["short"],
-                              confirm=2.0 if quick else 4.0, deadline=20.0 if quick else 45.0, faults=p.get("faults"))
+                              confirm=2.0 if quick else 4.0, deadline=20.0 if quick else 45.0, faults=p.get("faults"),
+                              bufsize=p.get("bufsize", -1), caps=p.get("caps"))
         try:
             recs = r.run(p["prog"])
         finally:
             r.close()
         batch.append(recs)
         meta.append(p)
-        c.case(key=repr((p["size"], p["short"], p["prog"])),
+        c.case(key=repr((p["size"], p["short"], p.get("bufsize", -1), p.get("caps"), p["prog"])),
                sample=({"size": p["size"], "short_reads": p["short"], "program": p["prog"],
                         "outcomes": [(x["op"], x.get("out")) for x in recs[1:]]} if i % 211 == 7 else None))
     res, _ = c.trace("SftpClientProto_Trace", batch,
@@ -66,14 +78,16 @@ def run_programs(c, programs, label, own):
         rec = recs[row[2] - 1]
         name = clause if isinstance(clause, str) else clause[0]
         key = "%s:%s" % (name, row[3])
-        args = {k: v for k, v in rec.items() if k in ("n", "p", "chunks", "maxc", "count", "which", "res", "at", "k", "exc",
+        args = {k: v for k, v in rec.items() if k in ("n", "p", "whence", "chunks", "maxc", "count", "which", "res", "at", "k", "exc",
                                                        "rejected", "same", "fault", "pos", "code", "size", "confirm",
                                                        "prefetch", "fo", "callback")}
-        what = ("%s on a %d-byte file%s, call #%d %s %s -> %s: %s" %
-                (p.get("origin", label), p["size"], " (server returns short reads)" if p["short"] else "", row[2] - 1,
+        what = ("%s on a %d-byte file%s%s%s, call #%d %s %s -> %s: %s" %
+                (p.get("origin", label), p["size"], " (server returns short reads)" if p["short"] else "",
+                 " opened with bufsize=%d" % p["bufsize"] if p.get("bufsize", -1) > 0 else "",
+                 " over pipes bounded to %d/%d bytes" % tuple(p["caps"]) if p.get("caps") else "", row[2] - 1,
                  rec["op"], args, rec["out"], name))
-        return key, what, {"size": p["size"], "short_reads": p["short"], "seed": p["seed"], "program": p["prog"],
-                           "records": recs}
+        return key, what, {"size": p["size"], "short_reads": p["short"], "seed": p["seed"], "bufsize": p.get("bufsize", -1),
+                           "caps": p.get("caps"), "program": p["prog"], "records": recs}
     for row in res["VERDICT"]:
         for clause in row[-1]:
             key, what, replay = describe(row[1], clause, row)
@@ -100,6 +114,11 @@ def model_c28(c):
          name="faithful: EOF status saved as the file's pending exception")
     c.mc("SftpClientProto", cfg_text(constants=consts(dict(small, FixEmptyStart=False)), invariants=inv), expect="NoHang",
          name="faithful: _start_prefetch([]) leaves done = False")
+    # seek(SET / CUR / END) after short reads with read-ahead: the file stays where the calls put it
+    sinv = inv + ["PosAgrees"]
+    c.mc_holds("SftpClientProto", cfg_text(constants=consts(SEEK_MODEL), invariants=sinv), name="seeks after buffered reads")
+    c.mc("SftpClientProto", cfg_text(constants=consts(dict(SEEK_MODEL, SeekFromRealpos=True)), invariants=sinv),
+         expect="PosAgrees", name="mutation: SEEK_CUR counts from the end of the read-ahead")
     r = c.mc_holds("SftpClientProto_Gen", cfg_text(spec="GSpec", constants=consts(small), invariants=["Emit"]),
                    name="program generation", workers=1)
     progs = [x[1] for x in r.printed("CASE")]
@@ -142,9 +161,16 @@ def random_prog(rnd, size):
         if k < 0.2:
             prog.append({"op": "prefetch", "maxc": maxc, "fsize": rnd.random() < 0.7})
         elif k < 0.4:
-            prog.append({"op": "seek", "p": rnd.choice([0, rnd.randint(0, size + 10), max(0, size - 5), size // 2])})
+            w = rnd.choice([0, 0, 1, 1, 2])
+            if w == 0:
+                p = rnd.choice([0, rnd.randint(0, size + 10), max(0, size - 5), size // 2])
+            elif w == 1:
+                p = rnd.choice([0, 1, 240, 5000, 40000])      # forward only: the target stays >= 0
+            else:
+                p = -rnd.choice([0, 1, 100, min(size, 40000), size])
+            prog.append({"op": "seek", "p": p, "whence": w})
         elif k < 0.7:
-            prog.append({"op": "read", "n": rnd.choice([1, 10, 4096, 32768, 40000, 100000, 400000])})
+            prog.append({"op": "read", "n": rnd.choice([1, 10, 16, 100, 4096, 32768, 40000, 100000, 400000])})
         else:
             cs = [chunk() for _ in range(rnd.randint(1, 5))]
             if rnd.random() < 0.3 and len(cs) > 1:
@@ -162,8 +188,9 @@ def directed_programs():
     S = 49152
     out = []
 
-    def add(size, short, prog, seed):
-        out.append({"size": size, "short": short, "seed": seed, "prog": prog, "origin": "directed program %d" % len(out)})
+    def add(size, short, prog, seed, bufsize=-1):
+        out.append({"size": size, "short": short, "seed": seed, "prog": prog, "bufsize": bufsize,
+                    "origin": "directed program %d" % len(out)})
     add(S, False, [{"op": "readv", "chunks": [[S, 100], [S + 10000, 100]], "maxc": 1}], 11)
     add(S, False, [{"op": "readv", "chunks": [[S + 1000, 40000], [0, 100], [1000, 100]], "maxc": 0}], 12)
     add(S, False, [{"op": "readv", "chunks": [[S, 10]], "maxc": 0}, {"op": "seek", "p": 0}, {"op": "read", "n": 100}], 13)
@@ -182,6 +209,18 @@ def directed_programs():
                         {"op": "read", "n": 100000}, {"op": "seek", "p": 10}, {"op": "read", "n": 50000}], 20)
     add(200000, True, [{"op": "prefetch", "maxc": 0, "fsize": False}, {"op": "seek", "p": 100000}, {"op": "read", "n": 400000},
                        {"op": "seek", "p": 0}, {"op": "read", "n": 400000}], 21)
+    # seeks of all three kinds after short reads, with a read buffer (read-ahead) and with the default
+    for bs in (-1, 4096, 512, 40000):
+        add(200000, False, [{"op": "prefetch", "maxc": 0, "fsize": True}, {"op": "read", "n": 16},
+                            {"op": "seek", "p": 240, "whence": 1}, {"op": "read", "n": 100},
+                            {"op": "seek", "p": -1000, "whence": 2}, {"op": "read", "n": 2000},
+                            {"op": "seek", "p": 70000, "whence": 0}, {"op": "read", "n": 10},
+                            {"op": "seek", "p": -5000, "whence": 1}, {"op": "read", "n": 50000},
+                            {"op": "seek", "p": 0, "whence": 1}, {"op": "read", "n": 1}], 23, bs)
+        add(100000, bs == 512, [{"op": "read", "n": 7}, {"op": "seek", "p": 1, "whence": 1}, {"op": "read", "n": 7},
+                                {"op": "readv", "chunks": [[5000, 100], [90000, 20000]], "maxc": 0},
+                                {"op": "seek", "p": -100000, "whence": 2}, {"op": "read", "n": 33},
+                                {"op": "seek", "p": 10, "whence": 1}, {"op": "read", "n": 40000}], 24, bs)
     return out
 
 
@@ -201,19 +240,45 @@ def run(c):
     for i in range(150 if c.quick else 1500):
         sz = rnd.choice([0, 1, 1000, 32768, 32769, 65536, 100000, 200000, 307200, rnd.randint(0, 307200)])
         programs.append({"size": sz, "short": rnd.random() < 0.5, "seed": c.seed * 100003 + i,
+                         "bufsize": rnd.choice([-1, -1, 512, 4096, 40000]),
                          "prog": random_prog(rnd, sz), "origin": "random program"})
     run_programs(c, programs, "p", C28_CLAUSES)
     c.rule = ("%d of the %d programs of the bounded model (all of them in the thorough tier; 1-2 calls of prefetch/seek/read/readv "
               "with chunks inside, spanning and past EOF, limit None/1) scaled by 16 KiB, alternately with and without short "
               "reads, + seeded random programs of 1-6 calls (sizes 0..300 KiB, chunk lists overlapping/unordered/past EOF, "
-              "max_concurrent_requests None/1..8, random seeks, short reads on half of them); distinct = distinct "
-              "(size, short reads, program)" % (nmodel, len(progs)))
+              "max_concurrent_requests None/1..8, seeks with all three whence values, files opened with the default and with "
+              "read buffers of 512/4096/40000 bytes, short reads on half of them) + %d fixed programs; distinct = distinct "
+              "(size, short reads, bufsize, program)" % (nmodel, len(progs), len(directed_programs())))
     c.extra["model_programs_replayed"] = nmodel
     c.assumptions = ["the served file does not change during a program",
                      "thread interleavings of the real runs are not controlled (free-running threads under a watchdog)"]
 
 
 # --------------------------------------------------------------------------- C30, client half (called from c30.py)
+
+def pressure_programs():
+    """the same kinds of programs over pipes with a small window in each direction (credit handed back in lumps of
+    10 %, like an SSH channel): a prefetch / readv of several MiB fills both directions before the application reads"""
+    M = 1 << 20
+    out = []
+
+    def add(size, caps, prog):
+        out.append({"size": size, "short": False, "seed": 900 + len(out), "prog": prog, "caps": caps,
+                    "origin": "back-pressure program %d" % len(out)})
+    add(12 * M, (4096, 65536), [{"op": "prefetch", "maxc": 0, "fsize": True}, {"op": "pause", "t": 0.2},
+                                {"op": "read", "n": 12 * M + 10}, {"op": "sync", "which": "stat"}, {"op": "closeR"}])
+    add(8 * M, (2048, 40000), [{"op": "sync", "which": "listdir"}, {"op": "prefetch", "maxc": 0, "fsize": False},
+                               {"op": "read", "n": 100}, {"op": "pause", "t": 0.1}, {"op": "seek", "p": 4 * M, "whence": 0},
+                               {"op": "read", "n": 4 * M}, {"op": "seek", "p": 0, "whence": 0}, {"op": "read", "n": 5 * M}])
+    add(8 * M, (4096, 65536), [{"op": "readv", "chunks": [[i * 120000, 120000] for i in range(60)], "maxc": 0},
+                               {"op": "sync", "which": "stat"}])
+    add(1000, (8192, 8192), [{"op": "write", "count": 400, "n": 100, "pipelined": True}, {"op": "sync", "which": "stat"},
+                             {"op": "write", "count": 400, "n": 3000, "pipelined": True}, {"op": "sync", "which": "listdir"},
+                             {"op": "closeW"}])
+    add(6 * M, (4096, 65536), [{"op": "write", "count": 120, "n": 500, "pipelined": True}, {"op": "prefetch", "maxc": 0, "fsize": True},
+                               {"op": "pause", "t": 0.1}, {"op": "read", "n": 6 * M}, {"op": "closeW"}])
+    return out
+
 
 def client_half(c, pid):
     inv = ["NoHang", "WriteErrorSurfaces", "ReadExact"]
@@ -225,8 +290,14 @@ def client_half(c, pid):
          expect="NoHang", name="faithful: a synchronous request drops a pipelined write status, the drain waits forever")
     c.mc("SftpClientProto", cfg_text(constants=consts(dict(small, FixOwner=False, FixClose=True)), invariants=inv),
          expect="NoHang", name="candidate repair 'close() drains _reqs' alone still blocks")
+    # back-pressure: bounded request / response pipes whose credit comes back in lumps (SSH window adjusts)
+    pinv = ["NoHang", "ReadExact"]
+    c.mc_holds("SftpClientProto", cfg_text(constants=consts(PRESSURE_MODEL), invariants=pinv),
+               name="prefetch under back-pressure: the reader drains, the sender resumes")
+    c.mc("SftpClientProto", cfg_text(constants=consts(dict(PRESSURE_MODEL, SendUnderLock=True)), invariants=pinv),
+         expect="NoHang", name="mutation: the request is sent while SFTPClient._lock is held")
     rnd = random.Random(c.seed + 17)
-    programs = []
+    programs = pressure_programs()
     for i in range(60 if c.quick else 600):
         sz = rnd.choice([1000, 40000, 100000, 200000])
         prog = []
